@@ -6,6 +6,7 @@ import (
 	"sync/atomic"
 
 	"github.com/deepteams/webp/internal/dsp"
+	"github.com/deepteams/webp/internal/verifhook"
 )
 
 // parallelState holds pooled buffers for parallel encoding.
@@ -87,16 +88,21 @@ func newRowSync(mbH int) *rowSync {
 // Fast path uses atomic load (no lock). Slow path uses cond.Wait.
 func (rs *rowSync) waitFor(y int, needed int32) {
 	r := &rs.rows[y]
+	verifhook.Point(verifhook.PtWaitEnter, y, int(needed))
 	if r.done.Load() >= needed {
+		verifhook.Point(verifhook.PtWaitExit, y, int(needed))
 		return
 	}
 	r.waiters.Add(1)
+	verifhook.Point(verifhook.PtWaitAdded, y, int(needed))
 	r.mu.Lock()
 	for r.done.Load() < needed {
+		verifhook.Point(verifhook.PtWaitLoop, y, int(needed))
 		r.cond.Wait()
 	}
 	r.mu.Unlock()
 	r.waiters.Add(-1)
+	verifhook.Point(verifhook.PtWaitExit, y, int(needed))
 }
 
 // signal marks that row y has completed done MBs and wakes all waiters.
@@ -105,9 +111,11 @@ func (rs *rowSync) waitFor(y int, needed int32) {
 func (rs *rowSync) signal(y int, done int32) {
 	r := &rs.rows[y]
 	r.done.Store(done)
+	verifhook.Point(verifhook.PtSignalStore, y, int(done))
 	if r.waiters.Load() > 0 {
 		r.mu.Lock()
 		r.mu.Unlock()
+		verifhook.Point(verifhook.PtSignalBcast, y, int(done))
 		r.cond.Broadcast()
 	}
 }
@@ -229,6 +237,7 @@ func (enc *VP8Encoder) encodeFrameParallel(stats *ProbaStats) {
 				if y >= mbH {
 					return
 				}
+				verifhook.Point(verifhook.PtRowClaim, y, 0)
 				enc.encodeRow(w, y, topY, topU, topV, topModes, topNz, topNzDC, rs)
 			}
 		}(&workers[wi])
@@ -305,6 +314,7 @@ func (enc *VP8Encoder) encodeRow(w *RowWorker, y int, topY, topU, topV, topModes
 			}
 			rs.waitFor(y-1, waitX)
 		}
+		verifhook.Point(verifhook.PtMBBegin, x, y)
 
 		// 1. Import source data.
 		importBlockParallel(enc, w, x, y)
@@ -331,6 +341,7 @@ func (enc *VP8Encoder) encodeRow(w *RowWorker, y int, topY, topU, topV, topModes
 		updateNZContextParallel(info, x, topNz, &leftNz, topNzDC, &leftNzDC)
 
 		// 9. Signal completion.
+		verifhook.Point(verifhook.PtMBEnd, x, y)
 		rs.signal(y, int32(x+1))
 	}
 }
@@ -1544,6 +1555,7 @@ func (enc *VP8Encoder) recordAllTokens(stats *ProbaStats) {
 			// Phase A workers still processing later rows.
 			if enc.parallelRS != nil {
 				enc.parallelRS.waitFor(it.Y, int32(enc.mbW))
+				verifhook.Point(verifhook.PtPhaseBRow, it.Y, 0)
 			}
 			enc.leftNz = 0
 			enc.leftNzDC = 0
